@@ -262,19 +262,14 @@ static RBCell *make_span(TickitRenderBuffer *rb, int line, int col, int cols)
 
 // cell creation functions
 
-static int put_string(TickitRenderBuffer *rb, int line, int col, TickitString *s)
+/* Places the columns [offs, offs+cols) of the string s at (line, col) */
+static void put_string_slice(TickitRenderBuffer *rb, int line, int col, TickitString *s, int offs, int cols)
 {
-  TickitStringPos endpos;
-  size_t len = tickit_utf8_ncount(tickit_string_get(s), tickit_string_len(s), &endpos, NULL);
-  if(1 + len == 0)
-    return -1;
-
-  int cols = endpos.columns;
-  int ret = cols;
-
   int startcol;
   if(!xlate_and_clip(rb, &line, &col, &cols, &startcol))
-    return ret;
+    return;
+
+  startcol += offs;
 
   RBCell *linecells = rb->cells[line];
 
@@ -304,8 +299,18 @@ static int put_string(TickitRenderBuffer *rb, int line, int col, TickitString *s
     col      += spanlen;
     startcol += spanlen;
   }
+}
 
-  return ret;
+static int put_string(TickitRenderBuffer *rb, int line, int col, TickitString *s)
+{
+  TickitStringPos endpos;
+  size_t len = tickit_utf8_ncount(tickit_string_get(s), tickit_string_len(s), &endpos, NULL);
+  if(1 + len == 0)
+    return -1;
+
+  put_string_slice(rb, line, col, s, 0, endpos.columns);
+
+  return endpos.columns;
 }
 
 static int put_text(TickitRenderBuffer *rb, int line, int col, const char *text, size_t len)
@@ -1125,27 +1130,16 @@ static void copyrect(TickitRenderBuffer *dst, const TickitRenderBuffer *src,
           break;
         case TEXT:
           {
-            TickitStringPos start, end, limit;
-            const char *text = tickit_string_get(cell->v.text.s);
-
-            tickit_stringpos_limit_columns(&limit, cell->v.text.offs + offset);
-            tickit_utf8_count(text, &start, &limit);
-
-            limit.columns += cols;
-            end = start;
-            tickit_utf8_countmore(text, &end, &limit);
-
-            if(start.bytes > 0 || end.bytes < tickit_string_len(cell->v.text.s))
-              put_text(dst, line + lineoffs, col + coloffs,
-                  text + start.bytes, end.bytes - start.bytes);
-            else {
-              // We can just cheaply copy the entire string; hold a reference
-              // while doing so because the destination may overwrite the
-              // very cell that owns it
-              TickitString *s = tickit_string_ref(cell->v.text.s);
-              put_string(dst, line + lineoffs, col + coloffs, s);
-              tickit_string_unref(s);
-            }
+            /* Refer to the same columns of the same string rather than
+             * re-slicing its bytes, so that a run that starts or ends inside
+             * a double-width character is copied faithfully.  Hold a
+             * reference meanwhile because the destination may overwrite the
+             * very cell that owns the string
+             */
+            TickitString *s = tickit_string_ref(cell->v.text.s);
+            put_string_slice(dst, line + lineoffs, col + coloffs,
+                s, cell->v.text.offs + offset, cols);
+            tickit_string_unref(s);
           }
           break;
         case ERASE:
